@@ -327,11 +327,15 @@ def check_c11(prop, tier, replay, selftest):
         print("SELFTEST %s: %s" % (prop, "binding demonstrated" if ok else "FAILED"))
         return 0 if ok else 2
     res.add_mc(require_mc(tlc_mc("Robdd", "Robdd_nv2.cfg", workers=12, timeout=900)))
+    res.add_mc(require_mc(tlc_mc("AdfRobdd", "AdfRobdd_n2.cfg" if tier == "thorough" else "AdfRobdd_n2_quick.cfg", workers=12, timeout=2400)))
     tr = tlc_trace("Trace_Bdd", out, boundary=is_reset)
     res.add_trace(tr)
     _collect_generic(prop, res, tr, "hist")
     _hist_stats(res, tr)
     res.extra["drift_count"] = len(res.drift)
+    fol = [t[3] for (_, t) in tr["tuples"] if t and t[0] == "FOLLOWED"]
+    res.extra["histories_followed_by_store_level_model"] = {"fully": fol.count("fully"), "partly": fol.count("partly"),
+        "meaning": "AdfRobddOps (grounded / complete / stable / extra formulas on RobddOps) stepped from the real pre-state predicts every raw answer (handles, order) and the final node table"}
     res.assumptions = ["TLC evaluates AdfSem / RobddOps correctly", "the harness logs the raw answers (handles included) of the library (binding self-test: --selftest)",
                        "cache transparency on the model side = StepOK on every transition of the closed two-variable store graph (memo tables warm or cold)"]
     return res.finish()
@@ -952,6 +956,12 @@ def server_collect(prop, res, tr):
         for pr in shown:
             if any(e["type"] == "Some" and e["strategy"] != "Parse" for e in pr["per"]):
                 seen.add(hashlib.sha1(json.dumps([r["op"], pr["code"], [(e["strategy"], e["type"], [m["ac"] for m in e["models"]]) for e in pr["per"]]]).encode()).hexdigest())
+    for gl, t in tr["tuples"]:
+        if gl is not None and t[0] == "DRIFT":
+            res.drift.append({"record": t[2], "what": t[3]})
+    res.extra["drift_count"] = len(res.drift)
+    res.extra["footprint_conformance"] = ("every request's database commands match ServerShapes!HandlerCommands (commands, collections, filter keys) "
+                                          "and every task write uses {name, username}" if not res.drift else "drift: see 'drift'")
     for gl, t in tr["tuples"]:
         if gl is None or t[0] != "MISMATCH" or t[3] != prop:
             continue
